@@ -1,3 +1,5 @@
+// ASSUMPTION (reported): 64-bit target. `u32 as usize` conversions of peer-advertised limits plus protocol constants fit.
+global size_of usize == 8;
 // ---- shared spec helpers and lemmas ----
 pub mod vlib {
     use vstd::prelude::*;
